@@ -98,6 +98,13 @@ def make_copy(name):
 
 
 def apply(dst, spec):
+    if isinstance(spec, str) and spec.startswith('patch:'):
+        with open(spec[6:]) as f:
+            diff = f.read()
+        r = subprocess.run(['patch', '-p1', '-d', dst, '--no-backup-if-mismatch'], input=diff, capture_output=True, text=True)
+        if r.returncode != 0:
+            raise RuntimeError(f'{spec} does not apply: {r.stdout[-400:]}')
+        return
     if isinstance(spec, str) and spec.startswith('git:'):
         commit = spec[4:]
         diff = subprocess.run(['git', '-C', REPO, 'diff', commit, commit + '~1', '--', 'src'], capture_output=True, text=True, check=True).stdout
@@ -128,12 +135,16 @@ def run_mutant(name, budget):
         found = set()
         for ln in r.stdout.splitlines():
             ln = ln.strip()
+            if classes is None:
+                if ln.startswith('VIOLATION property=' + prop):
+                    found.add('violation')
+                continue
             for c in classes:
                 if ln.startswith(c + '/'):
                     found.add(c)
         other = [ln.strip().split(':')[0] for ln in r.stdout.splitlines() if '/' in ln.split(':')[0] and ln.startswith('  ') and not ln.startswith('   ')]
         ok = r.returncode == 1 and bool(found)
-        return {'mutant': name, 'check': prop, 'expected': sorted(classes), 'found': sorted(found), 'exit': r.returncode, 'detected': ok,
+        return {'mutant': name, 'check': prop, 'expected': sorted(classes) if classes else ['any violation of ' + prop], 'found': sorted(found), 'exit': r.returncode, 'detected': ok,
                 'other_classes': sorted(set(other) - found)[:6], 'wall_s': round(time.monotonic() - t0, 1), 'note': note,
                 'tail': '' if ok else (r.stdout + r.stderr)[-600:]}
     finally:
@@ -150,11 +161,28 @@ def run_mutant(name, budget):
                     pass
 
 
+def load_seeded():
+    """seeded changes written by independent sub-agents: /verif/seeded/<id>/{patch.diff,demo.py,meta.json}"""
+    root = os.path.join(D.VERIF, 'seeded')
+    out = {}
+    if os.path.isdir(root):
+        for d in sorted(os.listdir(root)):
+            mp = os.path.join(root, d, 'meta.json')
+            if os.path.isfile(mp):
+                with open(mp) as f:
+                    m = json.load(f)
+                out[d] = (m['property'], None, 'patch:' + os.path.join(root, d, 'patch.diff'), m.get('needs', ''))
+    return out
+
+
 def main(argv):
     what = argv[0] if argv else 'mutants'
-    if what != 'mutants':
-        print('usage: ./check selftest mutants [name ...]')
+    if what not in ('mutants', 'seeded'):
+        print('usage: ./check selftest mutants|seeded [name ...]')
         return 2
+    if what == 'seeded':
+        MUTANTS.clear()
+        MUTANTS.update(load_seeded())
     names = argv[1:] or list(MUTANTS)
     budget = float(os.environ.get('VERIF_SELFTEST_BUDGET', '45'))
     # evidence and replay files must not be clobbered by runs against scratch copies
@@ -183,7 +211,7 @@ def main(argv):
             if os.path.isdir(os.path.join(keep, d)):
                 shutil.copytree(os.path.join(keep, d), os.path.join(D.VERIF, d))
         shutil.rmtree(keep, ignore_errors=True)
-    with open(os.path.join(D.VERIF, 'mutants', 'last_selftest.json'), 'w') as f:
+    with open(os.path.join(D.VERIF, 'mutants', f'last_selftest_{what}.json'), 'w') as f:
         json.dump({'repo_head': D.repo_head(), 'budget_s': budget, 'results': results}, f, indent=1)
     missed = [r['mutant'] for r in results if not r.get('detected')]
     print(f'selftest: {len(results) - len(missed)}/{len(results)} mutants detected' + (f'; missed: {missed}' if missed else ''))
